@@ -363,3 +363,30 @@ func allElements(doc *html.Node) []*html.Node {
 }
 
 func detached(n *html.Node) *html.Node { return dom.Clone(n, true) }
+
+// parserStress builds a short fragment that drives the HTML parser through
+// its insertion modes with foreign content in between: table parts, select
+// and template scopes opened inside svg/math integration points and closed by
+// end tags that belong to an outer scope.
+func (r *RNG) parserStressParts() (outer, foreign, inner, integ, probe, end []string) {
+	outer = []string{"<table>", "<table><tbody>", "<table><tbody>", "<table><thead>", "<table><tbody><tr>", "<table><tr>", "<table><tr><td>", "<table><caption>", "<table><colgroup>", "<select>", "<template>", "<div>", "<p>", "<table><tbody><tr><td><table>"}
+	foreign = []string{"<svg>", "<math>", "<svg><g>", "<math><mrow>"}
+	inner = []string{"<tr>", "<td>", "<th>", "<tbody>", "<thead>", "<tfoot>", "<caption>", "<colgroup>", "<table>", "<select>", "<template>", "<head>", "<body>", "<frameset>", "<html>", "<option>"}
+	integ = []string{"<foreignObject>", "<desc>", "<title>", "<mtext>", "<mi>", `<annotation-xml encoding="text/html">`, `<annotation-xml encoding="application/xhtml+xml">`}
+	probe = []string{"<select></select>", "<select><option>x</select>", "<template></template>", "<table></table>", "<p></p>", "<select>"}
+	end = []string{"</tbody>", "</tr>", "</td>", "</table>", "</caption>", "</select>", "</template>", "</svg>", "</math>", "</p>", "</body>", "</html>", ""}
+	return
+}
+
+func parserStress(r *RNG) string {
+	outer, foreign, inner, integ, probe, end := r.parserStressParts()
+	s := outer[r.Intn(len(outer))] + foreign[r.Intn(len(foreign))] + inner[r.Intn(len(inner))]
+	if r.Chance(1, 4) {
+		s += inner[r.Intn(len(inner))]
+	}
+	s += integ[r.Intn(len(integ))] + probe[r.Intn(len(probe))]
+	for i, n := 0, 1+r.Intn(3); i < n; i++ {
+		s += end[r.Intn(len(end))]
+	}
+	return s
+}
